@@ -115,6 +115,13 @@ func setCtxs(yylex yyLexer, exprs []ast.Expr, ctx ast.ExprContext) {
 	}
 }
 
+// A bare * in a parameter list must be followed by a keyword only parameter
+func checkBareStar(yylex yyLexer, vararg *ast.Arg, kwonlyargs []*ast.Arg) {
+	if vararg == nil && len(kwonlyargs) == 0 {
+		yylex.(*yyLex).SyntaxError("named arguments must follow bare *")
+	}
+}
+
 // Make the expression for a dotted name, eg a.b.c: a Name for the first part
 // wrapped in one Attribute for each further part
 func dottedNameExpr(pos ast.Pos, dottedName string) ast.Expr {
@@ -507,10 +514,12 @@ typedargslist:
 	}
 |	tfpdeftests1 ',' '*' optional_tfpdef tfpdeftests
 	{
+		checkBareStar(yylex, $4, $5)
 		$$ = &ast.Arguments{Pos: $<pos>$, Args: $1, Defaults: $<exprs>1, Vararg: $4, Kwonlyargs: $5, KwDefaults: $<exprs>5}
 	}
 |	tfpdeftests1 ',' '*' optional_tfpdef tfpdeftests ',' STARSTAR tfpdef
 	{
+		checkBareStar(yylex, $4, $5)
 		$$ = &ast.Arguments{Pos: $<pos>$, Args: $1, Defaults: $<exprs>1, Vararg: $4, Kwonlyargs: $5, KwDefaults: $<exprs>5, Kwarg: $8}
 	}
 |	tfpdeftests1 ',' STARSTAR tfpdef
@@ -519,10 +528,12 @@ typedargslist:
 	}
 |	'*' optional_tfpdef tfpdeftests
 	{
+		checkBareStar(yylex, $2, $3)
 		$$ = &ast.Arguments{Pos: $<pos>$, Vararg: $2, Kwonlyargs: $3, KwDefaults: $<exprs>3}
 	}
 |	'*' optional_tfpdef tfpdeftests ',' STARSTAR tfpdef
 	{
+		checkBareStar(yylex, $2, $3)
 		$$ = &ast.Arguments{Pos: $<pos>$, Vararg: $2, Kwonlyargs: $3, KwDefaults: $<exprs>3, Kwarg: $6}
 	}
 |	STARSTAR tfpdef
@@ -602,10 +613,12 @@ varargslist:
 	}
 |	vfpdeftests1 ',' '*' optional_vfpdef vfpdeftests
 	{
+		checkBareStar(yylex, $4, $5)
 		$$ = &ast.Arguments{Pos: $<pos>$, Args: $1, Defaults: $<exprs>1, Vararg: $4, Kwonlyargs: $5, KwDefaults: $<exprs>5}
 	}
 |	vfpdeftests1 ',' '*' optional_vfpdef vfpdeftests ',' STARSTAR vfpdef
 	{
+		checkBareStar(yylex, $4, $5)
 		$$ = &ast.Arguments{Pos: $<pos>$, Args: $1, Defaults: $<exprs>1, Vararg: $4, Kwonlyargs: $5, KwDefaults: $<exprs>5, Kwarg: $8}
 	}
 |	vfpdeftests1 ',' STARSTAR vfpdef
@@ -614,10 +627,12 @@ varargslist:
 	}
 |	'*' optional_vfpdef vfpdeftests
 	{
+		checkBareStar(yylex, $2, $3)
 		$$ = &ast.Arguments{Pos: $<pos>$, Vararg: $2, Kwonlyargs: $3, KwDefaults: $<exprs>3}
 	}
 |	'*' optional_vfpdef vfpdeftests ',' STARSTAR vfpdef
 	{
+		checkBareStar(yylex, $2, $3)
 		$$ = &ast.Arguments{Pos: $<pos>$, Vararg: $2, Kwonlyargs: $3, KwDefaults: $<exprs>3, Kwarg: $6}
 	}
 |	STARSTAR vfpdef
